@@ -243,7 +243,7 @@ class ExprMixin:
                     return [(st, a & bb)]
                 if isinstance(op, ast.BitXor):
                     return [(st, (a - bb) | (bb - a))]
-        if a.s == ANY or b.s == ANY or isinstance(a.s, Opaque) or isinstance(b.s, Opaque):
+        if a.s == ANY or b.s == ANY or isinstance(a.s, Opaque) or isinstance(b.s, Opaque) or a.s == FUNC or b.s == FUNC:
             # arithmetic on opaque values (floats, paths): unconstrained result, may raise TypeError
             return [(st, ANY.fresh("binop"))]
         raise EngineError("unsupported operator %s on %s, %s (L%d)" % (type(op).__name__, a.s, b.s, node.lineno))
@@ -532,8 +532,29 @@ class ExprMixin:
     def ev_JoinedStr(self, e, st, exc, expect):
         exprs = [v.value for v in e.values if isinstance(v, ast.FormattedValue)]
         res = []
-        for s1, _ in self.ev_seq(exprs, st, exc):
-            res.append((s1, STR.fresh("fstr")))
+        fvs = [v for v in e.values if isinstance(v, ast.FormattedValue)]
+        for s1, vals in self.ev_seq(exprs, st, exc):
+            # exact when every interpolated value is a str (or a known-present Optional[str]) without conversion / format spec
+            parts, ok, k = [], True, 0
+            for v in e.values:
+                if isinstance(v, ast.Constant):
+                    parts.append(z3.StringVal(str(v.value)))
+                    continue
+                val = vals[k]
+                fv = fvs[k]
+                k += 1
+                if isinstance(val.s, Opt) and val.s.inner == STR:
+                    cond = self.feasible(s1, val.is_none.t)
+                    if not cond:
+                        val = val.s.val(val)
+                if val.s == STR and fv.conversion == -1 and fv.format_spec is None:
+                    parts.append(val.t)
+                else:
+                    ok = False
+            if ok and parts:
+                res.append((s1, V(STR, parts[0] if len(parts) == 1 else z3.Concat(*parts))))
+            else:
+                res.append((s1, STR.fresh("fstr")))
         return res
 
     def ev_Lambda(self, e, st, exc, expect):
